@@ -80,7 +80,7 @@ Definition ptok_in (src : str) (pt : ptoken) : Prop :=
 
 Lemma pstream_lines pre s pts : pstream pre s pts -> Forall (ptok_in (pre ++ s)) pts.
 Proof.
-  induction 1 as [pre g Hg|pre g pt rest_ pts Hg Hne Hwf Hk Hl Hs IH]; constructor.
+  induction 1 as [pre g Hg|pre g pt rest_ pts Hg Hne Hwf Hk Hl Hc Hs IH]; constructor.
   - exists (pre ++ g), rest_. repeat split.
     + rewrite <- !app_assoc. reflexivity.
     + apply Hwf.
@@ -109,4 +109,31 @@ Theorem lex_post_lines prof src pts :
 Proof.
   intros Hb Hl. destruct (lex_pstream prof src Hb) as (pts' & Hl' & Hs). rewrite Hl in Hl'. injection Hl' as <-.
   apply (pstream_lines [] src pts Hs).
+Qed.
+
+(** the location the lexer reports after a token ([current_loc()]: the parser stamps empty blocks and
+    destination-less `listen` statements with it) is the true position just past the token and the apostrophes
+    swallowed with it: the line of that point, and its byte offset from the start of that line *)
+Definition ploc_in (src : str) (pt : ptoken) : Prop :=
+  exists a gap2 b, src = a ++ tspell (pt_tok pt) ++ gap2 ++ b /\ tstart (pt_tok pt) = byte_len a /\
+                   forallb is_apos gap2 = true /\
+                   pt_loc pt = mkLoc (1 + count_nl (a ++ tspell (pt_tok pt) ++ gap2))
+                                     (byte_len (a ++ tspell (pt_tok pt) ++ gap2) - snd (pos_at (a ++ tspell (pt_tok pt) ++ gap2))).
+
+Lemma pstream_locs pre s pts : pstream pre s pts -> Forall (ploc_in (pre ++ s)) pts.
+Proof.
+  induction 1 as [pre g Hg|pre g pt rest_ pts Hg Hne Hwf Hk Hl Hc Hs IH]; constructor.
+  - destruct Hc as (gap2 & r2 & E1 & E2 & E3). exists (pre ++ g), gap2, r2. repeat split; auto.
+    + rewrite E1. rewrite <- !app_assoc. reflexivity.
+    + apply Hwf.
+    + rewrite E3. unfold loc_after. rewrite <- pos_at_line. rewrite <- !app_assoc. reflexivity.
+  - eapply Forall_impl; [|exact IH]. intros pt' (a & gap2 & b & E & W & G & L). exists a, gap2, b. repeat split; auto.
+    rewrite <- E. rewrite <- !app_assoc. reflexivity.
+Qed.
+
+Theorem lex_post_locs prof src pts :
+  byte_len src < u32_limit -> lex prof src = Ok pts -> Forall (ploc_in src) pts.
+Proof.
+  intros Hb Hl. destruct (lex_pstream prof src Hb) as (pts' & Hl' & Hs). rewrite Hl in Hl'. injection Hl' as <-.
+  apply (pstream_locs [] src pts Hs).
 Qed.
